@@ -229,7 +229,8 @@ fn history_unit(max_inj: usize, main_len: usize) -> Unit {
                         }
                         ctxs.push((o.pre_er, o.pre_ccr, o.pre_pc));
                     }
-                    Act::Step => {
+                    Act::Req(_) | Act::Bound | Act::Host(..) => {}
+                    Act::Step | Act::Exec { .. } => {
                         if let Decoded::Impl { row, f, .. } = o.dec {
                             match ROWS[row].sem {
                                 Sem::Trapa if f.trap != 0 => ctxs.push((o.pre_er, o.pre_ccr, (o.pre_pc + 2) & M24)),
